@@ -11,14 +11,16 @@ Open Scope N_scope.
 (* if the full lexer accepts the bytes and its tokens, seen as the scanner sees them, are a list of
    well-formed declarations, then fastscan.Scan returns the package and the imports of those
    declarations (the import paths being the values the FULL lexer decoded), and no error *)
-Theorem fast_scan_accepted_lemma : forall data items ds,
+Theorem fast_scan_accepted_lemma : forall ph,
+  (forall rs i, parse_uint16_32 rs = Some i -> (i < 2147483648)%N -> ph rs = Some (Z.of_N i)) ->
+  forall data items ds,
   lex data = LDone items ->
   ftoks_of_items (strip_bom data) items = tokens_of ds ->
   wf_decls ds ->
-  fast_scan data = Some {| r_pkg := package_of ds; r_imports := imports_of ds; r_errs := [] |}.
+  fast_scan ph data = Some {| r_pkg := package_of ds; r_imports := imports_of ds; r_errs := [] |}.
 Proof.
-  intros data items ds Hlex Htoks Hwf. unfold fast_scan.
-  rewrite (fast_lex_agree_lemma _ _ Hlex), Htoks. cbn [option_map].
+  intros ph Hph data items ds Hlex Htoks Hwf. unfold fast_scan.
+  rewrite (fast_lex_agree_lemma ph Hph _ _ Hlex), Htoks. cbn [option_map].
   rewrite scan_tokens_of_decls_lemma by exact Hwf. reflexivity.
 Qed.
 
@@ -74,7 +76,7 @@ Qed.
 Example fastscan_example :
   wf_decls ex_decls /\
   (exists items, lex ex_data = LDone items /\ ftoks_of_items (strip_bom ex_data) items = tokens_of ex_decls) /\
-  fast_scan ex_data =
+  fast_scan hex_signed ex_data =
     Some {| r_pkg := [120; 46; 121];
             r_imports := [ {| im_path := [97; 65; 98]; im_public := true; im_weak := false; im_option := false |};
                            {| im_path := [122]; im_public := false; im_weak := false; im_option := false |} ];
@@ -86,3 +88,12 @@ Proof.
   - eexists. split; [vm_compute; reflexivity|vm_compute; reflexivity].
   - split; [vm_compute; reflexivity|]. split; vm_compute; reflexivity.
 Qed.
+
+(* where the two lexers differ (outside the property: the full lexer rejects the literal):
+   the literal  \x+5  is an error for the full lexer, the byte 5 for the scanner as it is (ParseInt
+   accepts the sign), and the raw escape for the scanner after the optional hardening patch *)
+Example signed_escape_example :
+  full_decode 34 [92; 120; 43; 53; 34] = None /\
+  fast_decode hex_signed 34 [92; 120; 43; 53; 34] = Some ([5], []) /\
+  fast_decode hex_unsigned 34 [92; 120; 43; 53; 34] = Some ([92; 120; 43; 53], []).
+Proof. repeat split; vm_compute; reflexivity. Qed.
